@@ -111,6 +111,26 @@ def _f22(hist, mm):
         if st.get('op') == 'vwrite' and st.get('field') == mk['primary']:
             if any(_is_sent(mk, v) for v in st['values']):
                 return True
+        if st.get('op') == 'vwrite_valid' and st.get('field') == mk['primary']:
+            return True      # values are drawn at run time; the stale-count symptom above identifies the case
+    return False
+
+
+@signature('F36')
+def _f36(hist, mm):
+    """'add' over overlapping pixel ranges on a map with a non-zero sentinel (slice path)"""
+    if not all(m['layer'] == 'L0' for m in mm):
+        return False
+    mk = None
+    for st in hist:
+        if st.get('op') == 'mk':
+            mk = st
+    for st in hist:
+        if st.get('op') == 'rng' and st.get('operation') == 'add':
+            rows = [r for r in st['ranges'] if r[0] < r[1]]
+            overlap = any(not (a[1] <= b[0] or b[1] <= a[0]) for i, a in enumerate(rows) for b in rows[i + 1:])
+            if overlap and mk is not None and mk.get('sentinel') not in (0, 0.0):
+                return True
     return False
 
 
